@@ -520,7 +520,7 @@ def gen_mapped(rng, tier):
     return cases
 
 
-DEEP_KINDS = FLAT_KINDS + ["struct"]
+DEEP_KINDS = FLAT_KINDS + ["struct", "inline"]
 HASHABLE_BAD = [None, 0, -3, "", "a", True, 7]
 
 
@@ -531,6 +531,22 @@ def container_depth(d):
     if d["k"] in COLLECTION_KINDS:
         return 1 + max([container_depth(x) for x in subs] or [0])
     return 0
+
+
+def inline_under_map(d, under=False):
+    """an inline StructureReference occurs (at any depth) inside a collection.  An inline structure is deserialized
+    with the mapper handed down to it: the aggregated (identity) mapper reaches it as a direct field (and through
+    Array[inline]), where a null field counts as an ABSENT key; deserialize_map passes no mapper on and deeper
+    collections have no `_mapper` entry, and there a null field is deserialized as a VALUE.  The `deser` model of
+    Sem/Deser.lean (C05) treats null as absent everywhere, so inline structures inside collections are a
+    different region - kept out of this stream (class references compute their own mapper: uniform)"""
+    if d["k"] == "struct":
+        if d.get("inline") and under:
+            return True
+        return any(inline_under_map(f, under) for _, f in d["fields"])
+    subs = ([d["item"]] if isinstance(d.get("item"), dict) else []) + [x for x in d.get("items", []) if isinstance(x, dict)] + \
+           [d[k] for k in ("key", "val") if isinstance(d.get(k), dict)]
+    return any(inline_under_map(x, True) for x in subs)
 
 
 def corrupt_along(rng, vg, d, w, mode, hashable=False, depth=0):
@@ -587,6 +603,15 @@ def corrupt_along(rng, vg, d, w, mode, hashable=False, depth=0):
         else:
             kvs[i][1] = corrupt_along(rng, vg, d["val"], kvs[i][1], mode, hashable, depth + 1)
         return {"m": kvs}
+    if k == "struct" and d.get("inline") and "m" in w and w["m"]:
+        # an inline StructureReference takes a dict in the constructor too
+        kw = [list(kv) for kv in w["m"]]
+        fields = dict((n, f) for n, f in d["fields"])
+        idx = [i for i, kv in enumerate(kw) if kv[0] in fields]
+        if idx:
+            i = rng.choice(idx)
+            kw[i][1] = corrupt_along(rng, vg, fields[kw[i][0]], kw[i][1], mode, hashable, depth + 1)
+            return {"m": kw}
     if k == "struct" and "o" in w and mode != "construct" and w["o"][1]:
         kw = [list(kv) for kv in w["o"][1]]
         fields = dict((n, f) for n, f in d["fields"])
@@ -614,11 +639,20 @@ def gen_deep(rng, tier, n_classes):
         vg = gen.ValGen(rng)
         fields = []
         for nm in rng.sample(["aa", "b_1", "deep", "m2", "tt"], rng.randint(1, 3)):
-            want_struct = rng.random() < 0.3
+            r = rng.random()
+            want_struct = r < 0.3
+            want_coll_of_struct = 0.3 <= r < 0.45
             for _ in range(30):
-                # a collection nested >= 2 levels, or a (top-level) class reference
-                fd = dg.class_decl(1, n_fields=rng.randint(1, 3)) if want_struct else dg.decl(0)
-                if (want_struct or container_depth(fd) >= 2) and '"inline"' not in json.dumps(fd):
+                # a collection nested >= 2 levels, a (top-level) nested structure (class reference or inline), or a
+                # collection of nested structures
+                if want_struct:
+                    fd = dg.class_decl(1, n_fields=rng.randint(1, 3), inline=rng.random() < 0.35)
+                elif want_coll_of_struct:
+                    fd = coll_of(rng.choice(["seqOf", "deque", "tupleOf", "mapVal"]),
+                                 dg.class_decl(2, n_fields=rng.randint(1, 3), inline=rng.random() < 0.25))
+                else:
+                    fd = dg.decl(0)
+                if (want_struct or want_coll_of_struct or container_depth(fd) >= 2) and not inline_under_map(fd):
                     fields.append([nm, fd])
                     break
         if not fields:
@@ -655,7 +689,7 @@ def gen_deep(rng, tier, n_classes):
     return cases
 
 
-VIA_KINDS = ["plain", "partial", "allrequired", "extend", "omit", "pick", "subclass", "local"]
+VIA_KINDS = ["plain", "partial", "allrequired", "extend", "omit", "pick", "omit-method", "pick-method", "subclass", "local"]
 # class names a user may choose (type() accepts any string): word-only names keep the field; names with a
 # character outside [\\w.] are the region of the open finding field-lost:non-word-name
 ODD_CLASS_NAMES = ["Foo_1", "F9", "_Priv", "\u00dcn\u00ef", "Foo.Bar", "x\u0301Cls", "My Class", "a-b", "Gen[int]"]
@@ -691,12 +725,12 @@ def gen_names(rng, tier):
                 continue
             names = list(base)
             kind = "plain" if via.startswith("name:") else via
-            v = {"kind": kind, "name": rng.choice([None, None, "Renamed", "Bar_9"]) if kind in ("partial", "allrequired", "extend", "omit", "pick") else None}
-            if kind in ("omit", "pick") and len(names) > 1:
+            v = {"kind": kind, "name": rng.choice([None, None, "Renamed", "Bar_9"]) if kind in ("partial", "allrequired", "extend", "omit", "pick", "omit-method", "pick-method") else None}
+            if kind.split("-")[0] in ("omit", "pick") and len(names) > 1:
                 v["keys"] = sorted(rng.sample(names, 1))
-            elif kind in ("omit", "pick"):
+            elif kind.split("-")[0] in ("omit", "pick"):
                 continue
-            kept = [n for n in names if (kind != "omit" or n not in v["keys"]) and (kind != "pick" or n in v["keys"])]
+            kept = [n for n in names if (not kind.startswith("omit") or n not in v["keys"]) and (not kind.startswith("pick") or n in v["keys"])]
             decl_of = dict((n, fd) for n, fd in cls["fields"])
             for sub in [[x] for x in kept[:2]] + ([kept[:2]] if len(kept) > 1 else []):
                 kw = {n: base[n] for n in kept}
@@ -728,6 +762,10 @@ def derive_class(cls, via):
         return Omit[cls, keys, name] if name else Omit[cls, keys]
     if kind == "pick":
         return Pick[cls, keys, name] if name else Pick[cls, keys]
+    if kind == "omit-method":     # the classmethods name the class themselves
+        return cls.omit(*keys, class_name=name) if name else cls.omit(*keys)
+    if kind == "pick-method":
+        return cls.pick(*keys, class_name=name) if name else cls.pick(*keys)
     if kind == "subclass":
         return type(cls.__name__ + "Sub", (Partial[cls],), {})
     if kind == "local":
@@ -1027,11 +1065,19 @@ def run_impl(case):
         from typedpy.serialization.serialization import deserialize_single_field
         ign = bool(decl.get("ignoreNone"))
         p1 = []
+        # as construct_fields_map calls it: with the field's part of the aggregated (identity) mapper, under which
+        # a null inside a nested / inline structure counts as an absent key
+        try:
+            from typedpy.serialization.mappers import aggregate_deserialization_mappers
+            agg = aggregate_deserialization_mappers(cls, deser_kwargs.get("mapper"), bool(deser_kwargs.get("camel_case_convert"))) or {}
+        except Exception:  # noqa
+            agg = {}
         for k, v in kw.items():
             if k not in decl_of or v is None:   # null document values are dropped by Deserializer
                 continue
             try:
-                deserialize_single_field(getattr(cls, k), v, k, ignore_none=ign)
+                sub = agg.get(f"{k}._mapper") if isinstance(agg, dict) else None
+                deserialize_single_field(getattr(cls, k), v, k, ignore_none=ign, mapper=sub)
             except (TypeError, ValueError):
                 p1.append(k)
             except Exception:  # noqa
@@ -1092,7 +1138,7 @@ def line(case, impl):
     if case.get("via"):
         # a derived class: its NAME is the model's (Lean `derivedName`), not read off the real class
         v = case["via"]
-        l["via"] = v["kind"]
+        l["via"] = v["kind"].split("-")[0]
         l["baseName"] = case["cls"]["name"] + ("Sub" if v["kind"] == "subclass" else "")
         if v["kind"] == "subclass":
             l["via"] = "plain"
@@ -1172,6 +1218,9 @@ def deser_correspondence(case, impl, model):
     """phase-one model vs the real deserialize_single_field, field by field"""
     if "phase1_rejects" not in impl or "phase1" not in model:
         return None
+    if model.get("p1VsDeser") is False:
+        return (f"the two Lean models of deserialization's first phase disagree (Sem/Errors p1Rejects vs Sem/Deser deser) "
+                f"for document {json.dumps(impl.get('doc_actual'), ensure_ascii=False)[:300]}")
     m, r = sorted(model["phase1"]), sorted(impl["phase1_rejects"])
     if m != r:
         return (f"phase one of deserialization: model rejects {m}, real deserialize_single_field rejects {r} "
@@ -1232,6 +1281,9 @@ def construct_correspondence(case, impl, model):
             return f"message does not begin with the model's head {s['head']!r}: {impl.get('msg')!r}"
         if not c["shapeOk"]:
             return f"message shape differs from the model's {s['shape']}: {impl.get('msg')!r}"
+        if not c.get("problemOk", True):
+            return (f"the message body violates the side condition of the render -> parse theorems (a non-empty problem where "
+                    f"the {s['shape']} shape puts it, not starting with 'G' / ';'): {impl.get('msg')!r}")
     return None
 
 
@@ -1340,9 +1392,9 @@ def oracle(case, impl, model):
     invalid = model["invalid"]
     if not invalid:
         return fails
-    # the class name the message heads must carry: the declared one; for a class typedpy derived, the name the
-    # Lean model gives it (derivedName) - never read off the real class
-    cls_name = (model.get("clsName") if case.get("via") else None) or case["cls"]["name"]
+    # the class name the message heads carry: the declared one; for a class typedpy derived, the real one (whether it
+    # stays in [\\w.]+ is the model's prediction, Lean derivedName; a non-word character no declared name has is typedpy's)
+    cls_name = (impl.get("cls_name_real") if case.get("via") else None) or case["cls"]["name"]
     invalid_kinds = set()
     supplied = [k for k, _ in case["kw"]]
     supplied_kinds = set(fd["k"] for n, fd in case["cls"]["fields"] if n in supplied)
@@ -1424,6 +1476,12 @@ def oracle(case, impl, model):
             if bare != aligned[idx]["path"]:
                 fails.append(("wrong-position:suffix-chain",
                               f"the path {p!r} names field {hit[0]} but not the rejected position {aligned[idx]['path']!r}: {t!r} [{where}]"))
+        elif aligned and aligned[idx].get("kind") == "named" and aligned[idx].get("head") and model.get("deep") \
+                and not t.startswith(aligned[idx]["head"]):
+            # deserialization at depth: the text must begin with the path of the first rejected element
+            # (Lean `dHead`: one `_<i>` per homogeneous level, `<name>_<i>: ` per positional level)
+            fails.append(("wrong-position:deser-head",
+                          f"the message names field {hit[0]} but does not begin with the rejected position {aligned[idx]['head']!r}: {t!r} [{where}]"))
     # (3) every ErrorInfo carries such a field and a non-empty problem
     for idx, i in enumerate(infos):
         hit = [n for n in (own(idx) if idx < len(texts) else invalid) if n in invalid and names_field(i.get("field"), cls_name, n)]
@@ -1436,7 +1494,7 @@ def oracle(case, impl, model):
         else:
             p = path_of_text(t, cls_name)
             if p is not None and any(names_field(p, cls_name, n) for n in (own(idx) if idx < len(texts) else invalid)):
-                declared = cls_name + "".join(n for n, _ in case["cls"]["fields"]) + ((case.get("via") or {}).get("name") or "")
+                declared = case["cls"]["name"] + "".join(n for n, _ in case["cls"]["fields"]) + ((case.get("via") or {}).get("name") or "")
                 lost_keys.append((classify_lost(t, p, declared),
                                   f"ErrorInfo.field={i.get('field')!r} does not name the invalid field although the message does: {t!r} [{where}]"))
             # else: already reported under (2)
@@ -1484,6 +1542,8 @@ def tags(case, impl, model):
     if model and "out" in model:
         for s in model["out"].get("sites", []):
             out.append("site-shape:" + s["shape"])
+        for c in model["out"].get("cmp", []):
+            out.append("problem-template:" + ("typedpy" if c.get("templateOk") else "other"))
     return out
 
 
